@@ -70,6 +70,7 @@ def gen(rng):
     steps = L['steps']
     home, uid, env = L['home'], L['uid'], dict(L['env'])
     args = []
+    made_dirs = set()
     for _i in range(rng.choice([1, 1, 2, 3])):
         vol = rng.choice(['/'] + L['vols'])
         d = L['work'][vol]
@@ -91,11 +92,18 @@ def gen(rng):
             if rng.random() < 0.7 else rng.choice(G.TROUBLE)
         if len((d + '/' + nm).encode('utf-8', 'surrogateescape')) > 3900:
             continue
-        if d != vol:
-            steps.append(['d', d, 0o755])
         p = d + '/' + nm
         if any(p == a or p.startswith(a + '/') or a.startswith(p + '/') for a in args):
             continue
+        # neither the entry nor its directories may coincide with a directory / an entry made for an earlier argument
+        if p in made_dirs or any(d == a or d.startswith(a + '/') for a in args):
+            continue
+        if d != vol:
+            steps.append(['d', d, 0o755])
+        x = d
+        while x not in ('/', ''):
+            made_dirs.add(x)
+            x = posixpath.dirname(x)
         G.make_entry(rng, p, rng.choice(['file', 'emptydir', 'link_dangling']), steps, home + '/aux')
         args.append(p)
     if not args:
